@@ -2,6 +2,12 @@
 monitors evaluated on the implementation's observations, and the meaning of monitor violation codes."""
 
 KNOWN_CODES = {
+    700: 'a task row disappeared or its identity columns changed', 701: 'a task counter decreased', 702: 'a finished task changed',
+    703: 'a task counter increased without a lease sweep', 704: 'a task became claimed without a claim of exactly its current counter guarded by {init, enqueued}',
+    705: 'a claim lease is not tick time + ttl, or a heartbeat / sweep read does not use the tick time',
+    706: 'a claimed task left its (claimed, counter) state without holder completion, sweep or root-promise completion',
+    707: 'a claimed task was taken away although the lease owed to its holder had not expired on the server clock',
+    708: 'a task stayed claimed with the same counter but changed hands', 709: 'a task that left (claimed, counter) is neither finished nor has a higher counter',
     401: 'an answer produced at tick t shows a promise pending although t >= its timeout',
     402: 'the answer 20100 to a create shows the new promise pending although the clock has reached its timeout (D12)',
     403: 'a row is stored completed in an illegal shape (timed out before the deadline, caller state/value installed at or after it, time-out with a value or a wrong completion time)',
@@ -21,6 +27,14 @@ KNOWN_CODES = {
 }
 
 PROPS = {
+    'C07': {
+        'families': [('tasks', 'sys', 150, 1500)],
+        'monitors': ['C07_mon', 'C07x_mon'],
+        'statement': 'forall cfg sch, sch_wf sch -> C07_mon (events cfg sch) = []  (Props/C07.v: C07_holds_partial; the lease-timing clause, code 707, is the history monitor C07x_mon evaluated on traces)',
+        'assumptions': ['the explored schedules execute store submissions of earlier ticks first (fifo), as the single store worker does; the lease-timing clause (707) is decided on the explored schedules only', 'tick time + ttl does not wrap int64 in the explored schedules'],
+        'level_text': 'Theorem C07_holds_partial: for every schedule tasks never disappear nor change identity (700), counters never decrease (701), finished tasks never change (702), a counter increases only through a lease sweep (703), a task becomes claimed only through a claim naming its current counter guarded by {init,enqueued} (704), leases are tick+ttl (705), a claimed task leaves (claimed,counter) only by its holder completing, a sweep of exactly that state/counter or its root promise completing (706), the holder does not change while claimed (708), and after leaving it is finished or has a higher counter (709). The lease-timing clause (707) is evaluated on every implementation trace.',
+        'level_note': 'Trusted: Coq kernel + vm_compute; harness/emitter; hand-written model of the Go coroutines (observation equality on explored schedules only); SQLite. No axioms. Partial: code 707 not proved for all schedules.',
+    },
     'C04': {
         'families': [('promises', 'sys', 120, 1200), ('promise-race', 'sys', 80, 800), ('promises-crash', 'sys', 50, 500)],
         'monitors': ['C04_mon'],
